@@ -126,7 +126,7 @@ def run(c, names, fault=None, txn=None):
         if lb.error is not None:
             raise crash_violation(lb.error, c, "run-aborted[%s%s]" % ("+".join(names), ",fault" if fault else ""))
         led = {n: simlab.ledger(lb, n) for n in names}
-        seq = {n: [(r["market"], r["now"], r["cb"]) for r in lb.log if r["strategy"] == n and r["cb"] in ("check_market_book", "process_closed_market")]
+        seq = {n: [(r["market"], r["now"], r["cb"]) for r in lb.log if r["strategy"] == n and r["cb"] in ("check_market_book", "process_closed_market", "process_orders")]
                for n in names}
         order = [(r["cb"], r["strategy"], r["now"]) for r in lb.log if r["cb"] in ("middleware", "check_market_book")]
         return led, seq, order, lb.fault_fired, lb
@@ -175,8 +175,19 @@ def check(c):
     base, seq0, _, _, lb0 = run(c, ["A"])
     ups = lb0.renderers[0].updates
     nontrivial = False
+    steps_ = c["market"]["steps"]
+    if len({json.dumps(flt.get(n) or {}, sort_keys=True) for n in "ABC"}) > 1 and steps_ and steps_[-1]["k"] == "close":
+        # separate streams of one file: every pass over the recording calls process_orders of every strategy with
+        # orders in the kept market (the root cause recorded as a known finding) - only the updates are compared
+        def _core(x):
+            return {k: [e for e in v if e[2] != "process_orders"] for k, v in x.items()}
+    else:
+        def _core(x):
+            return x
+    seq0 = _core(seq0)
     for names in (["A", "B"], ["B", "A"], ["A", "B", "C"], ["C", "B", "A"]):
         led, seq, order, _, lb = run(c, names)
+        seq = _core(seq)
         d = diff(base["A"], led["A"])
         if d:
             if seq["A"] != seq0["A"]:
@@ -196,6 +207,7 @@ def check(c):
         f = c["fault"]
         for fnames in (["A", "B"], ["B", "A"]):
           led, seq, order, fired, lb = run(c, fnames, f)
+          seq = _core(seq)
           if fired:
               nontrivial = True
               classes.add("fault:%s:%s" % (f["cb"], f["exc"]))
@@ -291,7 +303,7 @@ def run_eg(c, names):
         lb.run()
         if lb.error is not None:
             raise crash_violation(lb.error, c, "run-aborted[%s,event-group]" % "+".join(names))
-        seq = [(r["market"], r["now"], r["cb"]) for r in lb.log if r["strategy"] == "A" and r["cb"] in ("check_market_book", "process_closed_market")]
+        seq = [(r["market"], r["now"], r["cb"]) for r in lb.log if r["strategy"] == "A" and r["cb"] in ("check_market_book", "process_closed_market", "process_orders")]
         return simlab.ledger(lb, "A"), seq, ("B" in names and bool(simlab.ledger(lb, "B")["orders"]))
 
 
